@@ -3,11 +3,15 @@ CONSTANTS
   D <- D2
   Members <- All2
   Ns = {0, 1, 2, 3}
-  MaxIters = {0, 1, 2, 3}
+  MaxIters = {10, 12}
   Kinds = {"and", "or", "not"}
-  Rules = {"asis", "fixed"}
+  Rules = {"fixed", "asis"}
   Starts <- D2
+VIEW NoDraws
+INVARIANT ClaimAndFixed
+INVARIANT ClaimOr
+INVARIANT ClaimNot
 INVARIANT OnePath
 INVARIANT Bounded
+INVARIANT AsIsOnlyUncertifiedChange
 PROPERTY Progress
-PROPERTY Terminates
